@@ -7,6 +7,7 @@ package actor
 // per-sender-order acceptors.
 
 import (
+	"sync/atomic"
 	"fmt"
 	"strconv"
 	"strings"
@@ -31,6 +32,31 @@ type vLifeH struct {
 	release chan struct{}
 	holdCh  chan struct{}
 	first   bool
+	inflight int32
+	overlap  bool
+	// the successor: an actor that the FINAL Stopped handler spawns (default options) and writes to at once
+	final     bool
+	succPID   *PID
+	succIn    int32 // Receive calls of the successor in progress
+	succOver  bool
+	succGot   []int
+}
+
+type vSuccMsg struct{ n int }
+
+func (h *vLifeH) succRecv(c *Context) {
+	if m, ok := c.Message().(vSuccMsg); ok {
+		if atomic.AddInt32(&h.succIn, 1) > 1 {
+			h.mu.Lock()
+			h.succOver = true
+			h.mu.Unlock()
+		}
+		time.Sleep(20 * time.Microsecond)
+		h.mu.Lock()
+		h.succGot = append(h.succGot, m.n)
+		h.mu.Unlock()
+		atomic.AddInt32(&h.succIn, -1)
+	}
 }
 
 type vLifeRecv struct {
@@ -40,6 +66,13 @@ type vLifeRecv struct {
 
 func (r *vLifeRecv) Receive(c *Context) {
 	h := r.h
+	// Receive calls of THIS actor (all incarnations) in progress: never more than one (C02)
+	if atomic.AddInt32(&h.inflight, 1) > 1 {
+		h.mu.Lock()
+		h.overlap = true
+		h.mu.Unlock()
+	}
+	defer atomic.AddInt32(&h.inflight, -1)
 	switch m := c.Message().(type) {
 	case Initialized:
 		h.add(fmt.Sprintf("R%d:I", r.inc))
@@ -50,6 +83,19 @@ func (r *vLifeRecv) Receive(c *Context) {
 		}
 	case Stopped:
 		h.add(fmt.Sprintf("R%d:X", r.inc))
+		h.mu.Lock()
+		final := h.final
+		h.mu.Unlock()
+		// (a Stopped that is handled while the actor is still registered belongs to a crash-restart, not to the end)
+		if final && h.succPID == nil && c.Engine().Registry.get(c.PID()) == nil { // hand over to a successor, as a supervisor-like actor might
+			pid := c.Engine().SpawnFunc(h.succRecv, "lifesucc", WithID(c.PID().ID))
+			h.mu.Lock()
+			h.succPID = pid
+			h.mu.Unlock()
+			for i := 0; i < 40; i++ {
+				c.Engine().Send(pid, vSuccMsg{i})
+			}
+		}
 	case vLifeMsg:
 		snd := "-"
 		if c.Sender() != nil {
@@ -146,6 +192,9 @@ func runLife(t testing.TB, plan []string, spare int, inbox int, stop string) str
 	close(h.holdCh)
 	res := "done"
 	var done <-chan struct{}
+	h.mu.Lock()
+	h.final = true
+	h.mu.Unlock()
 	if stop == "stop" {
 		// a non-graceful stop may drop what is still queued: wait until everything was handled first
 		total := 0
@@ -178,9 +227,41 @@ func runLife(t testing.TB, plan []string, spare int, inbox int, stop string) str
 	// a send after the context is done must be a dead letter, not a delivery
 	e.Send(pid, vLifeMsg{99, 0, false, false, false})
 	time.Sleep(2 * time.Millisecond)
+	// the successor spawned by the final Stopped handler: 40 messages from the handler, 40 more from here
+	succ := "none"
+	h.mu.Lock()
+	sp := h.succPID
+	h.mu.Unlock()
+	if sp != nil {
+		for i := 40; i < 80; i++ {
+			e.Send(sp, vSuccMsg{i})
+		}
+		vWaitLife(func() bool { h.mu.Lock(); defer h.mu.Unlock(); return len(h.succGot) >= 80 })
+		h.mu.Lock()
+		succ = "ok"
+		if len(h.succGot) != 80 {
+			succ = fmt.Sprintf("LOST(%d-of-80)", len(h.succGot))
+		} else {
+			for i, n := range h.succGot {
+				if n != i {
+					succ = "DISORDER"
+					break
+				}
+			}
+		}
+		if h.succOver {
+			succ = "OVERLAP"
+		}
+		h.mu.Unlock()
+		<-e.Poison(sp).Done()
+	}
 	h.mu.Lock()
 	defer h.mu.Unlock()
-	return res + " sbr=" + startedBeforeReturn + " log=" + strings.Join(h.log, ",")
+	ovl := "0"
+	if h.overlap {
+		ovl = "1"
+	}
+	return res + " sbr=" + startedBeforeReturn + " succ=" + succ + " ovl=" + ovl + " log=" + strings.Join(h.log, ",")
 }
 
 func vWaitLife(cond func() bool) {
